@@ -188,7 +188,8 @@ Record sess := {
   s_conn : conn;         (* FSM.con: nil / open (writes fail?) / closed *)
   s_neg : neg;
   s_retry : N;           (* connectRetryCounter *)
-  s_upd : N              (* counters.updatesReceived *)
+  s_upd : N;             (* counters.updatesReceived *)
+  s_imp : import_policy  (* the import filter chain in force (fsmAddressFamily.importFilterChain) *)
 }.
 
 Definition neg0 : neg :=
@@ -198,20 +199,22 @@ Definition neg0 : neg :=
 
 Definition init_sess (c : cfg) : sess :=
   {| s_st := if c_passive c then Active else Idle; s_att := false; s_conn := NoConn;
-     s_neg := neg0; s_retry := 0; s_upd := 0 |}.
+     s_neg := neg0; s_retry := 0; s_upd := 0; s_imp := c_imp c |}.
 
 Definition set_st (s : sess) (x : sname) : sess :=
-  {| s_st := x; s_att := s_att s; s_conn := s_conn s; s_neg := s_neg s; s_retry := s_retry s; s_upd := s_upd s |}.
+  {| s_st := x; s_att := s_att s; s_conn := s_conn s; s_neg := s_neg s; s_retry := s_retry s; s_upd := s_upd s; s_imp := s_imp s |}.
 Definition set_att (s : sess) (x : bool) : sess :=
-  {| s_st := s_st s; s_att := x; s_conn := s_conn s; s_neg := s_neg s; s_retry := s_retry s; s_upd := s_upd s |}.
+  {| s_st := s_st s; s_att := x; s_conn := s_conn s; s_neg := s_neg s; s_retry := s_retry s; s_upd := s_upd s; s_imp := s_imp s |}.
 Definition set_conn (s : sess) (x : conn) : sess :=
-  {| s_st := s_st s; s_att := s_att s; s_conn := x; s_neg := s_neg s; s_retry := s_retry s; s_upd := s_upd s |}.
+  {| s_st := s_st s; s_att := s_att s; s_conn := x; s_neg := s_neg s; s_retry := s_retry s; s_upd := s_upd s; s_imp := s_imp s |}.
 Definition set_neg (s : sess) (x : neg) : sess :=
-  {| s_st := s_st s; s_att := s_att s; s_conn := s_conn s; s_neg := x; s_retry := s_retry s; s_upd := s_upd s |}.
+  {| s_st := s_st s; s_att := s_att s; s_conn := s_conn s; s_neg := x; s_retry := s_retry s; s_upd := s_upd s; s_imp := s_imp s |}.
 Definition set_retry (s : sess) (x : N) : sess :=
-  {| s_st := s_st s; s_att := s_att s; s_conn := s_conn s; s_neg := s_neg s; s_retry := x; s_upd := s_upd s |}.
+  {| s_st := s_st s; s_att := s_att s; s_conn := s_conn s; s_neg := s_neg s; s_retry := x; s_upd := s_upd s; s_imp := s_imp s |}.
 Definition set_upd (s : sess) (x : N) : sess :=
-  {| s_st := s_st s; s_att := s_att s; s_conn := s_conn s; s_neg := s_neg s; s_retry := s_retry s; s_upd := x |}.
+  {| s_st := s_st s; s_att := s_att s; s_conn := s_conn s; s_neg := s_neg s; s_retry := s_retry s; s_upd := x; s_imp := s_imp s |}.
+Definition set_imp (s : sess) (x : import_policy) : sess :=
+  {| s_st := s_st s; s_att := s_att s; s_conn := s_conn s; s_neg := s_neg s; s_retry := s_retry s; s_upd := s_upd s; s_imp := x |}.
 Definition bump (s : sess) : sess := set_retry s (s_retry s + 1).
 
 (* ------------------------------------------------------------------ events and outputs *)
@@ -223,6 +226,8 @@ Inductive ev :=
 | EKeepaliveTimer
 | EConnectRetry
 | EBreak                   (* writes on the current connection start to fail *)
+| EReplaceImport (p : import_policy)   (* bgpServer.ReplaceImportFilterChain on the running session *)
+| EReplaceExport                       (* bgpServer.ReplaceExportFilterChain *)
 | EMsg (m : msg).
 
 Inductive out :=
@@ -234,6 +239,7 @@ Inductive out :=
 | Uninit                   (* establishedState.uninit *)
 | ProcessedUpdate (ann wd : list N)
 | ProcessedPoison (rid : N) (by_asn : bool) (v : N)
+| ReplacedImport (p : import_policy)   (* the import chain was replaced by p *)
 | ReadErr                  (* recvMsg returned an error (nobody listens on msgRecvFailCh) *)
 | Crash.                   (* a Go panic: slice out of range in recvMsg, nil connection *)
 
@@ -552,6 +558,8 @@ Definition step (c : cfg) (s : sess) (e : ev) : sess * list out :=
     match e with
     | EBreak =>
         (match s_conn s with ConnOpen _ => set_conn s (ConnOpen true) | _ => s end, [])
+    | EReplaceImport p => (set_imp s p, [ReplacedImport p])   (* no FSM event: peer.replaceImportFilterChain *)
+    | EReplaceExport => (s, [])
     | EMsg m =>
         match frame_of m with
         | FrPanic => (set_st s Ceased, [Crash])
@@ -587,6 +595,7 @@ Record sys := {
   y_sess : list (cfg * sess);
   y_rib : list rib_entry;                (* IPv4 unicast Loc-RIB *)
   y_adjin : list (N * list N);           (* per session: route ids in its IPv4 Adj-RIB-In *)
+  y_hidden : list (N * N);               (* (session, route) pairs of Adj-RIB-In paths hidden by loop detection *)
   y_asn : list N;                        (* VRF contributing ASNs (multiset) *)
   y_cid : list N;                        (* VRF contributing cluster ids (multiset) *)
   y_cl4 : N; y_cl6 : N                   (* Adj-RIB-Outs registered with the IPv4 / IPv6 Loc-RIB *)
@@ -626,10 +635,26 @@ Definition rib_without_sess (rib : list rib_entry) (sid : N) : list rib_entry :=
   filter (fun x => match x with (s0, _, _) => negb (s0 =? sid) end) rib.
 Definition ids_without (l : list N) (rid : N) : list N := filter (fun x => negb (x =? rid)) l.
 
+Definition hid_without (h : list (N * N)) (sid rid : N) : list (N * N) :=
+  filter (fun x => negb ((fst x =? sid) && (snd x =? rid))) h.
+Definition hid_without_sess (h : list (N * N)) (sid : N) : list (N * N) :=
+  filter (fun x => negb (fst x =? sid)) h.
+Definition is_hidden (h : list (N * N)) (sid rid : N) : bool :=
+  existsb (fun x => (fst x =? sid) && (snd x =? rid)) h.
+
+(* what the import policy makes of an eligible path: nothing, or an entry (rewritten or not) *)
+Definition imported (imp : import_policy) (sid rid : N) : list rib_entry :=
+  match imp with
+  | ImpReject => []
+  | ImpAccept => [(sid, rid, false)]
+  | ImpRewrite => [(sid, rid, true)]
+  end.
+
 (* fsmAddressFamily.init for every configured family *)
 Definition apply_init (c : cfg) (sid : N) (y : sys) : sys :=
   {| y_sess := y_sess y; y_rib := y_rib y;
      y_adjin := alist_set (y_adjin y) sid [];
+     y_hidden := y_hidden y;
      y_asn := fold_left (fun l _ => rc_add l (c_las c)) (nfam c) (y_asn y);
      y_cid := if c_rr c then fold_left (fun l _ => rc_add l (cluster_of c)) (nfam c) (y_cid y) else y_cid y;
      y_cl4 := if c_v4 c then y_cl4 y + 1 else y_cl4 y;
@@ -641,52 +666,62 @@ Definition apply_uninit (c : cfg) (sid : N) (was_att : bool) (y : sys) : sys :=
   {| y_sess := y_sess y;
      y_rib := rib_without_sess (y_rib y) sid;
      y_adjin := alist_set (y_adjin y) sid [];
+     y_hidden := hid_without_sess (y_hidden y) sid;
      y_asn := fold_left (fun l _ => rc_remove l (c_las c)) (nfam c) (y_asn y);
      y_cid := if c_rr c then fold_left (fun l _ => rc_remove l (cluster_of c)) (nfam c) (y_cid y) else y_cid y;
      y_cl4 := if c_v4 c then y_cl4 y - 1 else y_cl4 y;
      y_cl6 := if c_v6 c then y_cl6 y - 1 else y_cl6 y |}.
 
-(* fsmAddressFamily.processUpdate for the harness's IPv4 routes: withdraws, then announcements *)
+(* fsmAddressFamily.processUpdate for the harness's IPv4 routes: withdraws, then announcements;
+   imp = the import policy in force *)
 Definition apply_withdraw (sid : N) (y : sys) (rid : N) : sys :=
   {| y_sess := y_sess y; y_rib := rib_without (y_rib y) sid rid;
      y_adjin := alist_set (y_adjin y) sid (ids_without (alist_get (y_adjin y) sid) rid);
+     y_hidden := hid_without (y_hidden y) sid rid;
      y_asn := y_asn y; y_cid := y_cid y; y_cl4 := y_cl4 y; y_cl6 := y_cl6 y |}.
-Definition apply_announce (c : cfg) (sid : N) (y : sys) (rid : N) : sys :=
+Definition apply_announce (imp : import_policy) (sid : N) (y : sys) (rid : N) : sys :=
   {| y_sess := y_sess y;
-     y_rib := match c_imp c with
-              | ImpReject => rib_without (y_rib y) sid rid
-              | ImpAccept => rib_without (y_rib y) sid rid ++ [(sid, rid, false)]
-              | ImpRewrite => rib_without (y_rib y) sid rid ++ [(sid, rid, true)]
-              end;
+     y_rib := rib_without (y_rib y) sid rid ++ imported imp sid rid;
      y_adjin := alist_set (y_adjin y) sid (ids_without (alist_get (y_adjin y) sid) rid ++ [rid]);
+     y_hidden := hid_without (y_hidden y) sid rid;
      y_asn := y_asn y; y_cid := y_cid y; y_cl4 := y_cl4 y; y_cl6 := y_cl6 y |}.
-Definition apply_update (c : cfg) (sid : N) (ann wd : list N) (y : sys) : sys :=
+Definition apply_update (c : cfg) (imp : import_policy) (sid : N) (ann wd : list N) (y : sys) : sys :=
   if negb (c_v4 c) then y
-  else fold_left (apply_announce c sid) ann (fold_left (apply_withdraw sid) wd y).
+  else fold_left (apply_announce imp sid) ann (fold_left (apply_withdraw sid) wd y).
 
 (* an announcement that loop detection must hide while v is a contributing ASN (by_asn) / cluster id of
    the VRF (adjRIBIn.validatePath: ourASNsInPath, cluster list); hidden paths stay in the Adj-RIB-In only *)
-Definition apply_poison (c : cfg) (sid rid : N) (by_asn : bool) (v : N) (y : sys) : sys :=
+Definition apply_poison (c : cfg) (imp : import_policy) (sid rid : N) (by_asn : bool) (v : N) (y : sys) : sys :=
   if negb (c_v4 c) then y else
   let hidden := if by_asn then 0 <? rc_count (y_asn y) v else 0 <? rc_count (y_cid y) v in
   {| y_sess := y_sess y;
-     y_rib := match c_imp c, hidden with
-              | ImpAccept, false => rib_without (y_rib y) sid rid ++ [(sid, rid, false)]
-              | ImpRewrite, false => rib_without (y_rib y) sid rid ++ [(sid, rid, true)]
-              | _, _ => rib_without (y_rib y) sid rid
-              end;
+     y_rib := rib_without (y_rib y) sid rid ++ (if hidden then [] else imported imp sid rid);
      y_adjin := alist_set (y_adjin y) sid (ids_without (alist_get (y_adjin y) sid) rid ++ [rid]);
+     y_hidden := hid_without (y_hidden y) sid rid ++ (if hidden then [(sid, rid)] else []);
      y_asn := y_asn y; y_cid := y_cid y; y_cl4 := y_cl4 y; y_cl6 := y_cl6 y |}.
 
-(* RIB-level effect of the outputs of one FSM step, in order.  att tracks ribsInitialized while folding. *)
-Fixpoint apply_outs (c : cfg) (sid : N) (att : bool) (os : list out) (y : sys) : sys :=
+(* AdjRIBIn.ReplaceFilterChain on an attached session: afterwards the Loc-RIB holds, of this session,
+   exactly what the new policy makes of the eligible (not hidden) paths of its Adj-RIB-In *)
+Definition apply_reimport (c : cfg) (imp : import_policy) (sid : N) (att : bool) (y : sys) : sys :=
+  if negb (att && c_v4 c) then y else
+  {| y_sess := y_sess y;
+     y_rib := rib_without_sess (y_rib y) sid ++
+              flat_map (fun rid => if is_hidden (y_hidden y) sid rid then [] else imported imp sid rid)
+                       (alist_get (y_adjin y) sid);
+     y_adjin := y_adjin y; y_hidden := y_hidden y;
+     y_asn := y_asn y; y_cid := y_cid y; y_cl4 := y_cl4 y; y_cl6 := y_cl6 y |}.
+
+(* RIB-level effect of the outputs of one FSM step, in order.  att tracks ribsInitialized and imp the
+   import policy in force while folding. *)
+Fixpoint apply_outs (c : cfg) (sid : N) (att : bool) (imp : import_policy) (os : list out) (y : sys) : sys :=
   match os with
   | [] => y
-  | Init :: r => apply_outs c sid true r (apply_init c sid y)
-  | Uninit :: r => apply_outs c sid false r (apply_uninit c sid att y)
-  | ProcessedUpdate ann wd :: r => apply_outs c sid att r (apply_update c sid ann wd y)
-  | ProcessedPoison rid b v :: r => apply_outs c sid att r (apply_poison c sid rid b v y)
-  | _ :: r => apply_outs c sid att r y
+  | Init :: r => apply_outs c sid true imp r (apply_init c sid y)
+  | Uninit :: r => apply_outs c sid false imp r (apply_uninit c sid att y)
+  | ProcessedUpdate ann wd :: r => apply_outs c sid att imp r (apply_update c imp sid ann wd y)
+  | ProcessedPoison rid b v :: r => apply_outs c sid att imp r (apply_poison c imp sid rid b v y)
+  | ReplacedImport p :: r => apply_outs c sid att p r (apply_reimport c p sid att y)
+  | _ :: r => apply_outs c sid att imp r y
   end.
 
 Fixpoint nth_sess (l : list (cfg * sess)) (i : nat) : option (cfg * sess) :=
@@ -707,13 +742,14 @@ Definition sys_step (y : sys) (sid : nat) (e : ev) : sys * list out :=
   | None => (y, [])
   | Some (c, s) =>
       let (s', os) := step c s e in
-      let y1 := apply_outs c (N.of_nat sid) (s_att s) os y in
+      let y1 := apply_outs c (N.of_nat sid) (s_att s) (s_imp s) os y in
       ({| y_sess := set_nth_sess (y_sess y1) sid (c, s'); y_rib := y_rib y1; y_adjin := y_adjin y1;
+          y_hidden := y_hidden y1;
           y_asn := y_asn y1; y_cid := y_cid y1; y_cl4 := y_cl4 y1; y_cl6 := y_cl6 y1 |}, os)
   end.
 
 Definition init_sys (cs : list cfg) : sys :=
-  {| y_sess := map (fun c => (c, init_sess c)) cs; y_rib := []; y_adjin := [];
+  {| y_sess := map (fun c => (c, init_sess c)) cs; y_rib := []; y_adjin := []; y_hidden := [];
      y_asn := []; y_cid := []; y_cl4 := 0; y_cl6 := 0 |}.
 
 Fixpoint sys_run (y : sys) (es : list (nat * ev)) : sys :=
